@@ -265,8 +265,15 @@ func (s *Sim) yieldAt(gid uint64, point string, args []string) {
 	if t == nil {
 		s.mu.Lock()
 		s.bgCount[point]++
-		t = &Task{ID: len(s.tasks), Name: fmt.Sprintf("bg:%s#%d", point, s.bgCount[point]),
-			gid: gid, resume: make(chan struct{}), Origin: entryFunc(string(debug.Stack()))}
+		// named after what it runs and when it was spawned (goroutine ids are handed
+		// out in spawn order), not after the order in which goroutines first parked
+		origin := entryFunc(string(debug.Stack()))
+		short := origin
+		if i := strings.LastIndex(short, "/"); i >= 0 {
+			short = short[i+1:]
+		}
+		t = &Task{ID: len(s.tasks), Name: fmt.Sprintf("bg:%s+%d", short, int64(gid)-int64(s.rootGID)),
+			gid: gid, resume: make(chan struct{}), Origin: origin}
 		s.tasks = append(s.tasks, t)
 		s.byGID[gid] = t
 		s.mu.Unlock()
@@ -419,6 +426,27 @@ func (s *Sim) ParkedTasks() []*Task {
 	for _, t := range s.tasks {
 		if t.state == stParked {
 			out = append(out, t)
+		}
+	}
+	// Adopted engine goroutines were appended in the order of their first park,
+	// which depends on how the Go runtime interleaved them before the simulator
+	// took over (it differs with the number of Ps at process start). Among
+	// themselves they are listed by goroutine id, i.e. in the order in which the
+	// engine spawned them; the slots of harness tasks stay where they are.
+	var bg []*Task
+	for _, t := range out {
+		if !t.Harness {
+			bg = append(bg, t)
+		}
+	}
+	if len(bg) > 1 {
+		sort.Slice(bg, func(i, j int) bool { return bg[i].gid < bg[j].gid })
+		k := 0
+		for i, t := range out {
+			if !t.Harness {
+				out[i] = bg[k]
+				k++
+			}
 		}
 	}
 	return out
